@@ -78,6 +78,13 @@ def _execute(items):
             if w is not None:
                 w.close()
             w = World('dict', demo=True, tls=False)
+            # a long mailbox name for the wildcard patterns to chew on
+            c0 = w.connect('setup')
+            c0.take()
+            w.login('setup')
+            w.cmd('setup', b'CREATE ' + b'a' * 48 + b'/' + b'a' * 30)
+            c0.eof()
+            w.run('setup')
             nworld[0] += 1
             if nworld[0] % 2 == 0:
                 # every second world: what is sent arrives in several segments
@@ -196,9 +203,11 @@ def campaign(run, tier: str, prefix: str) -> None:
         # every grammar-shaped line and every one-mutation neighbour runs in the quick tier too
         lines, slines, msgs = lines[:1500], slines[:500], msgs[:60]
         top = [h for h in hdrs if h[2] == 'top']
-        rest = [h for h in hdrs if h[2] != 'top']
+        rest = [h for h in hdrs if h[2] in ('part', 'nested')]
+        deep = [h for h in hdrs if h[2].startswith('deep')]
         rng.shuffle(rest)
-        hdrs = top + rest[:250]
+        rng.shuffle(deep)
+        hdrs = top + rest[:250] + deep[:40]
     else:
         run.cov['exhaustive'] = True
     items = []
@@ -252,7 +261,7 @@ def campaign(run, tier: str, prefix: str) -> None:
         m = meta[i - 1]
         mine = clause.startswith(prefix)
         toks = m['tokens']
-        if m['kind'] == 'message' and len(toks) == 3 and toks[2] in ('top', 'part', 'nested'):
+        if m['kind'] == 'message' and len(toks) == 3 and toks[2] in ('top', 'part', 'nested', 'deepmulti', 'deeprfc'):
             nontriv = toks[1] not in plain_vals
         else:
             nontriv = m['kind'] == 'imap-mutated-template' or any(
